@@ -1063,8 +1063,8 @@ SCOPE = ("partial: proved for every history and every interval inside the retent
          "rounding of Exp2|mean| or its reciprocal when that difference is non-zero, the two quote directions share one Exp2 value, error flag, "
          "pruning invisible. Refuted (findings, witnesses in the theorem file): geometric TWAP 0 when the accumulator difference is 0 (F7); "
          "intervals inside one millisecond panic (C10-SUBMS). Not proved: real-analysis error bound eps of the geometric mean (needs C13's "
-         "LogBase2/Exp2 bounds), absence of range-assertion panics, lifting from one (pool, pair) to the whole module state (covered by the "
-         "correspondence only)")
+         "LogBase2/Exp2 bounds), absence of range-assertion panics. The per-pair theorems are lifted to the module-level model that the "
+         "correspondence runs (C10/Lift.v: every pair of every reachable module state has a well-formed pair history)")
 EXPLANATION = ("Gallina model of x/twap (C10/Model.v: getSpotPrices, newTwapRecord, updateRecord, recordWithUpdatedAccumulators, "
                "getInterpolatedRecord, computeTwap with both strategies, pruneRecordsBeforeTimeButNewest with its per-block limit, EndBlock, epoch "
                "hook, the changed-pool set) plus faithful copies of osmomath LogBase2 / Exp2 / SigFigRound (C10/LogExp.v). Theorems are by induction "
@@ -1080,7 +1080,7 @@ TRUSTED = [
 ASSUMPTIONS = [
     "block times strictly increase (CometBFT BFT time) and lie after year 1; pool ids are assigned 1,2,3,... in creation order",
     "time-weighted means are taken over canonical millisecond time (types.CanonicalTimeMs), as the module documents",
-    "theorems are per (pool, asset pair); the module-level loops (EndBlock over changed pools, pruning over pools and pairs) are covered by the correspondence check",
+    "theorems are stated per (pool, asset pair) and lifted to the module state (EndBlock over changed pools, pruning over pools and pairs with its per-block limit) in C10/Lift.v",
 ]
 TECHNIQUE = "Coq proof over a Gallina model of x/twap; model tied to the keeper by differential correspondence on full-app histories + oracle"
 LEVEL_TEXT = ("Machine-checked theorems (Coq 8.16.1, axiom-free) over all histories of one (pool, pair) and all query intervals inside the retention "
